@@ -55,7 +55,8 @@ CHECKS = {
         "Roots are all 2^d number states; every action of a finite alphabet (Interferometer catalogue, Beamsplitter, Phaseshifter, Squeezing2, "
         "IsingXX on every window and every other ordered pair, GaussianHamiltonian lattice) is executed on both simulators through the public path "
         "and on a dense Jordan-Wigner reference; in every state covariance matrices, occupation probabilities, parity / particle-number "
-        "conservation, exclusion and the correlation spectrum are compared (1e-9).",
+        "conservation, exclusion and the correlation spectrum are compared (1e-9); the particle-number samplers of both simulators are run on every "
+        "path of their random draws (one shot, harness-owned generators) and their law is compared with the reference marginal.",
         "Finite parameter catalogue; depth <= 2 (quick) / 3 (thorough); the reference fixes conventions where docstrings contradict each other "
         "(listed in the evidence assumptions).",
     ),
